@@ -1074,6 +1074,14 @@ from global if import in is lambda nonlocal not or pass raise return try while w
 
 
 # ------------------------------------------------------------------ entry points share one generator
+def _entry_point_followed(ctx: Ctx, label: str) -> bool:
+    """The pipeline obtained the generated text of every shape through this entry point (recompile / generate_code), interpreted
+    as written, and never had to fall back to calling the generator directly."""
+    irs(ctx)
+    pl_ = ctx.pipeline
+    return pl_.through_entry_point > 0 and pl_.direct_generator == 0 and not any(k == label for k, _ in pl_.entry_point_failures)
+
+
 def rule_one_generator(ctx: Ctx, rid="C14.ONE-GENERATOR", only=None):
     """recompile() and generate_code() both obtain their text from PythonCodeGen(<parse_source
     result>, expose_experiment_variant_function=<flag>).generate(); the evaluator passes exactly
@@ -1099,6 +1107,20 @@ def rule_one_generator(ctx: Ctx, rid="C14.ONE-GENERATOR", only=None):
         info = trace_generated_text(ctx, mod, fn)
         out[label] = info
         con = f"{mod.rel}:{fn.name}"
+        if info["problems"] and all("no PythonCodeGen" in p_ for p_ in info["problems"]) and _entry_point_followed(ctx, label):
+            # the backward trace found no constructor next to .generate() (a generator object obtained some other way: borrowed,
+            # reset, injected), but the entry point itself was interpreted as written for every shape and what it handed to
+            # compile/exec is the text the template rules analyse: nothing to report from the trace
+            ctx.rep.note(f"{con}: the syntactic trace found no PythonCodeGen(...).generate() expression; the text was followed through "
+                         f"the entry point itself for every shape instead")
+            info["problems"] = []
+            if label == "recompile" and info.get("expose") is None:
+                # the layout the evaluator compiles, read off the text it handed to exec
+                nested_ = [ir["helper_nested"] for o, ir, err in irs(ctx) if ir is not None and not o.expose]
+                if nested_:
+                    info["expose"] = "False" if all(nested_) else "True"
+            ctx.rep.ok(rid, con, "text followed through the entry point as written (abstract interpretation) for every shape", site=mod.site(fn))
+            continue
         if info["problems"]:
             ctx.rep.bad(rid, con, info["problems"][0], site=mod.site(fn), text=info["problems"][0][:120])
         else:
